@@ -595,6 +595,40 @@ read_tun(int tun_fd, char *buf, size_t len)
 }
 #endif
 
+/* Accept only plain dotted-quad decimal notation (a.b.c.d, each part 0-255).
+ * inet_addr() alone also accepts things like "1.2.3.4 ;foo", "1.2.3",
+ * "0x7f.1" or "010.1.1.1", and these strings end up on a shell command line. */
+static int
+is_dotted_quad(const char *s)
+{
+	int parts;
+
+	if (s == NULL)
+		return 0;
+	for (parts = 0; parts < 4; parts++) {
+		int digits = 0;
+		int value = 0;
+
+		while (*s >= '0' && *s <= '9') {
+			if (digits > 0 && value == 0)
+				return 0;	/* no leading zeros (octal) */
+			value = value * 10 + (*s - '0');
+			digits++;
+			s++;
+			if (digits > 3 || value > 255)
+				return 0;
+		}
+		if (digits == 0)
+			return 0;
+		if (parts < 3) {
+			if (*s != '.')
+				return 0;
+			s++;
+		}
+	}
+	return *s == '\0';
+}
+
 int
 tun_setip(const char *ip, const char *other_ip, int netbits)
 {
@@ -624,8 +658,12 @@ tun_setip(const char *ip, const char *other_ip, int netbits)
 	netmask <<= (32 - netbits);
 	net.s_addr = htonl(netmask);
 
-	if (inet_addr(ip) == INADDR_NONE) {
+	if (!is_dotted_quad(ip) || inet_addr(ip) == INADDR_NONE) {
 		fprintf(stderr, "Invalid IP: %s!\n", ip);
+		return 1;
+	}
+	if (!is_dotted_quad(other_ip)) {
+		fprintf(stderr, "Invalid IP: %s!\n", other_ip);
 		return 1;
 	}
 #ifndef WINDOWS32
